@@ -7,21 +7,22 @@
    parse_add_onion, expected, must_send, must_refuse, in_scope, oracle : Spec/C14.v
    no_unknown, reply_ok : Proofs/C14Proofs.v (the modelling envelope, see below)
 
-   Full statement (kept visible):
-     forall q rp tr, run q rp = Some tr -> oracle q rp tr = true.
-   It is FALSE of the faithful model (open finding C14-F1: a line break in a client name, a client
-   token or the text of a port mapping is written into the command line), see
-   C14_hostile_linebreak_refuted.  What is proved is C14_oracle_holds_partial, under
-     in_scope q   : key, targets, client names and tokens are free of Tor's separators and NUL,
-                    names without colon and distinct (this contains the complement of the finding's
-                    class for everything that is sent; it is larger than that complement: it also
-                    excludes SP/TAB/VT/NUL in those texts, for which only the counting, one-line,
-                    refusal and custody clauses are checked by the oracle),
+   The former finding C14-F1 (a line break in a client name, a client token or the text of a port
+   mapping was written into the command line) was repaired in /repo by 6a4374c; the model follows the
+   repaired code (the assembled command is checked for CR/LF just before it is queued, after the
+   clients that came with a token have been added to the service) and the class is now covered by
+   C14_refuses / C14_rejects_linebreaks_anywhere instead of being excluded.
+
+   C14_oracle_holds has two hypotheses that describe what the model / the drive covers, not classes
+   of requests that are excused:
      no_unknown q : numbers are plain digit strings and a free port exists for every int entry,
-     reply_ok q rp: ServiceID / PrivateKey occur at most once, the key has no surrounding
-                    whitespace, ClientAuth lines have a colon and name distinct new clients.
-   The custody theorems C14_discard_never_stored and C14_supplied_key_kept and the refusal theorem
-   need none of these hypotheses. *)
+     reply_ok q rp: the answer is as Tor sends it: ServiceID / PrivateKey occur at most once, the key
+                    has no surrounding whitespace, ClientAuth lines have a colon and name distinct
+                    new clients.
+   The read-back and client-token clauses of the oracle apply to requests in scope (in_scope: key,
+   targets, names, tokens free of Tor's separators and NUL, names without colon and distinct); for
+   the others the oracle checks the counting, one-line, refusal, liveness and custody clauses, and
+   the theorem covers those as well.  The custody and refusal theorems need no hypothesis. *)
 From Coq Require Import String.
 From Coq Require Import List Bool Ascii NArith.
 From TxVerif Require Import Lib.Bytes Spec.TorGrammar Spec.C14 Model.AddOnion Proofs.C14Proofs.
@@ -46,7 +47,8 @@ Theorem C14_never_misread : forall q cmd evs st e,
 Proof. exact sent_reads_back. Qed.
 Print Assumptions C14_never_misread.
 
-(* key material with a line break, or an entry that is not a port mapping: the creation fails and
+(* key material with a line break, a line break in any other argument, or an entry that is not a port
+   mapping (must_refuse): the creation fails and
    no command at all is sent, whatever the rest of the request and whatever Tor would answer *)
 Theorem C14_refuses : forall q rp tr, must_refuse q = true -> run q rp = Some tr ->
   exists p1, tr = [p1; []; []; []] /\ cmds_of p1 = [] /\ failed p1 = true.
@@ -57,6 +59,13 @@ Theorem C14_rejects_linebreak_keys : forall q s,
   q_key q = KText s -> has_linebreak s = true -> must_refuse q = true.
 Proof. exact linebreak_key_refused. Qed.
 Print Assumptions C14_rejects_linebreak_keys.
+
+(* a CR or LF in any client name, client token or port-mapping text (names distinct, otherwise the
+   request is ambiguous): refused as well, by C14_refuses nothing at all is sent *)
+Theorem C14_rejects_linebreaks_anywhere : forall q,
+  hostile_linebreak q = true -> names_distinct q = true -> must_refuse q = true.
+Proof. exact linebreak_anywhere_refused. Qed.
+Print Assumptions C14_rejects_linebreaks_anywhere.
 
 (* discarding: in no phase, for no answer (even one that carries PrivateKey=), does the service hold
    a key.  (That the DiscardPK flag is sent is part of C14_roundtrip: it is in [expected].) *)
@@ -73,20 +82,20 @@ Theorem C14_supplied_key_kept : forall q rp tr s kt kb m, q_key q = KText s ->
 Proof. exact supplied_key_kept. Qed.
 Print Assumptions C14_supplied_key_kept.
 
-(* the whole Spec oracle on the model's own trace: counting and one-line clauses, refusals, liveness,
-   read-back, key custody, address = ServiceID.onion, generated key retained, client tokens, the
-   caller gets the registered object, DEL_ONION <ServiceID> *)
-Theorem C14_oracle_holds_partial : forall q rp tr,
-  run q rp = Some tr -> in_scope q = true -> no_unknown q = true -> reply_ok q rp = true ->
-  oracle q rp tr = true.
+(* the whole Spec oracle on the model's own trace, for every request: counting and one-line clauses,
+   refusals, liveness, read-back, key custody, address = ServiceID.onion, generated key retained,
+   client tokens, the caller gets the registered object, DEL_ONION <ServiceID> *)
+Theorem C14_oracle_holds : forall q rp tr,
+  run q rp = Some tr -> no_unknown q = true -> reply_ok q rp = true -> oracle q rp tr = true.
 Proof. exact oracle_holds. Qed.
-Print Assumptions C14_oracle_holds_partial.
+Print Assumptions C14_oracle_holds.
 
-Theorem C14_hostile_linebreak_refuted :
-  exists tr, hostile_linebreak f1_request = true /\ run f1_request RError = Some tr /\
-             oracle f1_request RError tr = false.
-Proof. exact hostile_linebreak_refuted. Qed.
-Print Assumptions C14_hostile_linebreak_refuted.
+(* the witness of the former finding C14-F1 (client name  a CR LF b): now refused, oracle satisfied *)
+Theorem C14_former_finding_now_refused :
+  hostile_linebreak f1_request = true /\ must_refuse f1_request = true /\
+  exists tr, run f1_request RError = Some tr /\ oracle f1_request RError tr = true.
+Proof. exact f1_now_refused. Qed.
+Print Assumptions C14_former_finding_now_refused.
 
 (* non-vacuity: version 3, discard, detach, single-hop, basic auth with two clients, three mappings *)
 Example C14_hypotheses_satisfiable :
